@@ -5,6 +5,7 @@ pub mod c07;
 pub mod c08e2e;
 pub mod c09;
 pub mod c12;
+pub mod c13e2e;
 pub mod c17;
 pub mod c19e2e;
 pub mod common;
